@@ -1,5 +1,172 @@
 import ZoektModel.Basic.Proto
+import ZoektModel.C19.Spec
 namespace ZoektModel.C19
-/-- stub: no model driver for C19 yet -/
-def main : IO Unit := ZoektModel.Proto.runLines (fun _ => ZoektModel.Proto.badCase "no model driver for C19")
+open ZoektModel ZoektModel.Proto
+
+def optNat? (s : String) : Option (Option Nat) :=
+  if s == "x" then some none else s.toNat?.map some
+
+/-- listing: `fnhex:mtime:side;…` (`x` = Lstat failed), `-` = empty -/
+def parseListing (s : String) : Option (List Ent) :=
+  if s == "-" then some [] else
+  (s.splitOn ";").mapM fun e =>
+    match e.splitOn ":" with
+    | [f, m, sd] => do pure ⟨← hexToBytes? f, ← optNat? m, ← optNat? sd⟩
+    | _ => none
+
+/-- table: `fnhex:mtime:side;…` (`x` = no sidecar) -/
+def parseTable (s : String) : Option (Table Stamp) :=
+  if s == "-" then some [] else
+  (s.splitOn ";").mapM fun e =>
+    match e.splitOn ":" with
+    | [f, m, sd] => do pure (← hexToBytes? f, (← m.toNat?, ← optNat? sd))
+    | _ => none
+
+def showOptNat : Option Nat → String
+  | some n => toString n
+  | none => "x"
+
+def showTable (t : Table Stamp) : String :=
+  if t.isEmpty then "-" else ";".intercalate (t.map fun (k, (m, sd)) => s!"{bytesToHex k}:{m}:{showOptNat sd}")
+
+def showKeys (l : List Bytes) : String :=
+  if l.isEmpty then "-" else ";".intercalate (l.map bytesToHex)
+
+def parseKeys (s : String) : Option (List Bytes) :=
+  if s == "-" then some [] else (s.splitOn ";").mapM hexToBytes?
+
+def showVfp : Outcome (Bytes × Int) → String
+  | .ok (n, v) => s!"ok {bytesToHex n} {v}"
+  | .panic _ => "panic"
+  | .err _ => "err"
+  | .diverge => "diverge"
+
+def parseVfp (s : String) : Option (Outcome (Bytes × Int)) :=
+  match fields s with
+  | ["ok", n, v] => do pure (.ok (← hexToBytes? n, ← v.toInt?))
+  | ["panic"] => some (.panic "")
+  | _ => none
+
+def showScan : Outcome ScanOut → String
+  | .ok o => s!"ok ts={showTable o.ts} drop={showKeys o.toDrop} load={showKeys o.toLoad} calls=dl"
+  | .panic _ => "panic"
+  | .err _ => "err"
+  | .diverge => "diverge"
+
+def parseScan (s : String) : Option (Outcome ScanOut × String) :=
+  match fields s with
+  | ["ok", a, b, c, d] =>
+    if a.startsWith "ts=" && b.startsWith "drop=" && c.startsWith "load=" && d.startsWith "calls=" then do
+      let ts ← parseTable (a.drop 3).toString
+      let dr ← parseKeys (b.drop 5).toString
+      let ld ← parseKeys (c.drop 5).toString
+      pure (.ok ⟨ts, dr, ld⟩, (d.drop 6).toString)
+    else none
+  | ["panic"] => some (.panic "", "")
+  | _ => none
+
+/-! cow -/
+
+def sortByKey (l : List (Nat × Nat)) : List (Nat × Nat) :=
+  l.foldl (fun acc x =>
+    let (lo, hi) := acc.span (fun y => y.1 ≤ x.1)
+    lo ++ x :: hi) []
+
+def showMap (l : List (Nat × Nat)) : String :=
+  if l.isEmpty then "-" else "+".intercalate ((sortByKey l).map fun (k, v) => s!"{k}:{v}")
+
+def parseMap (s : String) : Option (List (Nat × Nat)) :=
+  if s == "-" then some [] else
+  (s.splitOn "+").mapM fun e =>
+    match e.splitOn ":" with
+    | [a, b] => do pure (← a.toNat?, ← b.toNat?)
+    | _ => none
+
+/-- `R1:1+2:0` (key:1 = new searcher, key:0 = nil), `S`, `E3`, `G4+5` / `G-` -/
+def parseCOp (s : String) : Option COp :=
+  match s.toList with
+  | 'R' :: rest =>
+    let body := String.ofList rest
+    if body == "-" then some (.replace []) else
+    ((body.splitOn "+").mapM fun (e : String) =>
+      match e.splitOn ":" with
+      | [a, b] => (a.toNat?).map fun k => (k, b == "1")
+      | _ => none).map .replace
+  | ['S'] => some .begin
+  | 'E' :: rest => (String.ofList rest).toNat?.map .done
+  | 'G' :: rest =>
+    let body := String.ofList rest
+    if body == "-" then some (.gc []) else ((body.splitOn "+").mapM fun (e : String) => e.toNat?).map .gc
+  | _ => none
+
+/-- run the ops on the small-step model (`COp.acts`); output per op -/
+def cowRun : CState → List COp → List String
+  | _, [] => []
+  | s, op :: rest =>
+    match crun s op.acts with
+    | none => "!" :: cowRun s rest
+    | some s' =>
+      let out := match op with
+        | .replace _ => showMap s'.ranked
+        | .begin => showMap s.ranked
+        | _ => "-"
+      out :: cowRun s' rest
+
+def toObs : List COp → List String → Option (List CObs)
+  | [], [] => some []
+  | op :: ops, o :: os => do
+    let x ← match op with
+      | .replace b => (parseMap o).map (CObs.replaced b)
+      | .begin => (parseMap o).map CObs.began
+      | .done i => some (CObs.ended i)
+      | .gc sids => some (CObs.closed sids)
+    let r ← toObs ops os
+    pure (x :: r)
+  | _, _ => none
+
+/--
+* `vfp <pathhex>`                         impl `ok <namehex> <version>` | `panic`
+* `scan <fv> <nv> <listing> <oldtable>`   impl `ok ts=… drop=… load=… calls=dl` | `panic`
+* `cow <ops>`                             impl: per op the published list (after `R`), the snapshot (`S`), `-` otherwise
+-/
+def handle (line : String) : String :=
+  let (inp, impl) := splitCase line
+  match fields inp with
+  | ["vfp", p] =>
+    match hexToBytes? p with
+    | none => badCase "path"
+    | some path =>
+      let model := showVfp (versionFromPath true path)
+      match parseVfp impl with
+      | none => badCase "impl output"
+      | some out =>
+        match checkVfp path out with
+        | none => answer model
+        | some key => specFail model key
+  | ["scan", fv, nv, ls, old] =>
+    match fv.toInt?, nv.toInt?, parseListing ls, parseTable old with
+    | some fv, some nv, some fs, some old =>
+      let model := showScan (scan true fv nv fs old)
+      match parseScan impl with
+      | none => badCase "impl output"
+      | some (out, calls) =>
+        match checkScan fv nv fs old out with
+        | some key => specFail model key
+        | none => if calls != "dl" && calls != "" then specFail model "scan-call-order" else answer model
+    | _, _, _, _ => badCase "fields"
+  | ["cow", ops] =>
+    match (if ops == "-" then some [] else (ops.splitOn ",").mapM parseCOp) with
+    | none => badCase "ops"
+    | some ops =>
+      let model := showList id (cowRun CState.init ops)
+      let outs := if ops.isEmpty then [] else impl.splitOn ","
+      match toObs ops outs with
+      | none => badCase "impl output"
+      | some obs =>
+        match checkCow {} obs with
+        | none => answer model
+        | some key => specFail model key
+  | _ => badCase "op"
+
+def main : IO Unit := runLines handle
 end ZoektModel.C19
